@@ -124,7 +124,7 @@ func mustECDSA() *ecdsa.PrivateKey {
 }
 
 // newStyle is the harness's own implementation of the new-style name
-// ("Z" + hex of the marshalled point); checked against onet's in a corpus case.
+// ("Z" + hex of the marshalled point); checked against onet's pubToCN at start.
 func newStyle(p kyber.Point) string {
 	var b bytes.Buffer
 	p.MarshalTo(&b)
@@ -158,6 +158,16 @@ var sigOID = network.VerifC08SigOID()
 var boundFormat = detectFormat()
 
 func detectFormat() bool {
+	for _, sn := range []string{"Ed25519", "bn256.g2"} {
+		st := suites.MustFind(sn)
+		p := st.Point().Pick(st.RandomStream())
+		if newStyle(p) != network.VerifC08PubToCN(p) {
+			panic("the harness's name encoding differs from onet's pubToCN for " + sn)
+		}
+		if q, err := network.VerifC08PubFromCN(st, newStyle(p)); err != nil || !q.Equal(p) {
+			panic("pubFromCN does not invert the new-style name for " + sn)
+		}
+	}
 	suite := suites.MustFind("Ed25519")
 	kp := key.NewKeyPair(suite)
 	si := network.NewServerIdentity(kp.Public, network.NewTLSAddress("127.0.0.1:1"))
